@@ -6,11 +6,14 @@ Driver for the C13 streams.  Requests:
         (all tokens whitespace-free; rhs is the digest / escaped text of the right-hand side)
   dbu <inputs> <p> -> 1 | 0        (defBeforeUse)
   keyeq <keytable> <fkeytable> <form> <od> <form> <od> -> 1 | 0   (model's cache key equality)
+  hist <keytable> <fkeytable> <preseeded forms> <requests>  -> labels of the classes returned by a history mixing compile_vform / compile_vforms
+  obj <keytable> <fkeytable> <preseeded forms> <steps>     -> answers of an object history (hash / compile / add / declare on one VForm)
   compile <keytable> <fkeytable> <requests>          -> for each request the index of the first request with the same key
 -/
 import Pyiga.Proto
 import Pyiga.Model.SLP
 import Pyiga.Model.VFormIO
+import Pyiga.Model.CompileHist
 
 open Pyiga Pyiga.Proto Pyiga.SLP Pyiga.VForm
 
@@ -36,6 +39,32 @@ def request : P String := do
       let keys := rs.map (cacheKey kt ft)
       let ans := keys.map fun k => (keys.findIdx? (fun k' => FVal.beq k' k)).getD 0
       pure (showNats ans)
+  | "hist" => do
+      -- request history against the pre-seeded cache; answer: for every request the labels of the returned classes
+      -- (`P<k>` = k-th pre-seeded class, `i.j` = generated for position j of request i)
+      let kt ← pKeyTable; let ft ← pFKeyTable
+      let pre ← list pForm
+      let reqs ← list (do
+        match (← tok) with
+        | "1" => do let f ← pForm; let od ← bool; pure (CompileReq.one (f, od))
+        | "n" => do let fs ← list pForm; pure (CompileReq.many fs)
+        | _ => failure)
+      let cache : AsmCache String := (pre.zipIdx.map fun (f, k) => (cacheKey kt ft (f, false), s!"P{k}")).reverse
+      let ans := compileHistoryIdx (fun i j => s!"{i}.{j}") kt ft 0 cache reqs
+      pure (showList (fun l => showList id l) ans)
+  | "obj" => do
+      let kt ← pKeyTable; let ft ← pFKeyTable
+      let rc ← bool; let rf ← bool
+      let pre ← list pForm
+      let steps ← list (do
+        match (← tok) with
+        | "H" => do let f ← pForm; pure (ObjStep.hash f)
+        | "C" => do let f ← pForm; let od ← bool; pure (ObjStep.compile f od)
+        | "A" => pure ObjStep.add
+        | "D" => do let u ← bool; pure (ObjStep.declare u)
+        | _ => failure)
+      let cache : AsmCache String := (pre.zipIdx.map fun (f, k) => (cacheKey kt ft (f, false), s!"P{k}")).reverse
+      pure (showList id (objHistory { recompute := rc, refuseFinal := rf } (fun _ => "new") kt ft { cache := cache } steps))
   | _ => failure
 
 def handle (line : String) : String :=
